@@ -82,7 +82,8 @@ def same_model(sub, direct, what="model"):
 
 def commute(case, build, what="model", post=None):
     """build(weights) -> model. Checks subs(build(symbols)) == build(numbers) and that subs does not change its
-    receiver. `post(model)` optionally derives further objects to compare as well (already covered by build)."""
+    receiver. `post(model)`, when given, is applied to both sides before they are compared (used to substitute
+    symbols that both builds share)."""
     with warnings.catch_warnings():
         warnings.simplefilter("ignore")
         S = build(weights(case, True))
@@ -93,6 +94,8 @@ def commute(case, build, what="model", post=None):
         return Fail("%s: subs changed the model it was called on" % what, key="subs-mutated")
     if sub is S:
         return Fail("%s: subs returned the receiver itself" % what, key="subs-mutated")
+    if post is not None:
+        sub, D = post(sub), post(D)
     r = same_model(sub, D, what)
     if r is not None:
         return r
@@ -103,16 +106,14 @@ def commute(case, build, what="model", post=None):
         step = S
         for n in names:
             step = do_subs(step, case, [n])
+        if post is not None:
+            step = post(step)
         r = same_model(step, D, what + " (symbols substituted one at a time)")
         if r is not None:
             return r
         if snapshot(S) != snap:
             return Fail("%s: subs changed the model it was called on" % what, key="subs-mutated")
     return None
-
-
-def _has_symbolic(case, build):
-    return True
 
 
 # ---------------------------------------------------------------------------------------------
@@ -132,7 +133,7 @@ def _build_compare(cls_name, case):
 def _gen_compare(ctx, spin, salt):
     rng = ctx.rng(salt)
     labels = LABELS[:4]
-    limit_anc = ctx.pick(6, 9)
+    limit_anc = ctx.pick(4 if spin else 6, 9)
 
     def est(P, rel, log, bounds):
         B = _to_bool(P) if spin else P
@@ -149,7 +150,7 @@ def _gen_compare(ctx, spin, salt):
         rngP = true_range(Q, spin) if Q else (0, 0)
         for rel in RELS:
             for log in ((True,) if rel == "eq" else (True, False)):
-                for bounds in (None, rngP):
+                for bounds in ((None, rngP) if ctx.thorough or not spin else (None,)):
                     if est(Q, rel, log, bounds) > limit_anc:
                         continue
                     # objective that cancels penalty terms at c: -c' * (coefficients of P) for some value c'
@@ -157,7 +158,7 @@ def _gen_compare(ctx, spin, salt):
                     obj = {k: -rng.choice(VALUES) * v for k, v in list(Q.items())[:2] if k}
                     yield {"obj": obj, "cons": [(rel, Q, "lam", log, bounds)], "values": {"lam": c},
                            "form": rng.choice(["dict", "pair"])}
-    n = ctx.pick(500, 8000)
+    n = ctx.pick(200 if spin else 500, 8000)
     made = 0
     while made < n:
         cons = []
@@ -265,7 +266,7 @@ def _gen_reduce(ctx):
             for meth, deg in REDUCE:
                 for c in VALUES:
                     yield {"type": t, "terms": terms, "cons": [], "method": meth, "deg": deg,
-                           "values": {"lam": c}, "form": "dict"}
+                           "values": {"lam": c}, "mu": 1, "form": "dict"}
     n = ctx.pick(500, 8000)
     made = 0
     while made < n:
@@ -274,20 +275,17 @@ def _gen_reduce(ctx):
         if max(len(k) for k in terms) < 3:
             continue
         cons = []
-        values = {"lam": rng.choice(VALUES)}
         if t in ("PCBO", "PCSO") and rng.random() < 0.5:
-            # README workflow: constraint weight symbolic as well (second symbol), then reduce with symbolic lam
+            # README workflow: the model to reduce carries a constraint whose weight is another symbol (mu)
             P = next(gen_models(rng, 1, labels[:4], 2, [-1, 1, 2], max_terms=3, min_terms=1))
             rel, log = rng.choice(RELS), rng.random() < 0.5
             B = _to_bool(P) if t == "PCSO" else P
             if anc_estimate(rel, *sum_enclosure(B), log) <= 4:
-                wname = rng.choice(["lam", "mu"])
-                cons.append((rel, P, wname, log, None))
-                if wname == "mu":
-                    values["mu"] = rng.choice(VALUES)
+                cons.append((rel, P, "mu", log, None))
         meth, deg = rng.choice(REDUCE)
         made += 1
-        yield {"type": t, "terms": terms, "cons": cons, "method": meth, "deg": deg, "values": values,
+        yield {"type": t, "terms": terms, "cons": cons, "method": meth, "deg": deg,
+               "values": {"lam": rng.choice(VALUES)}, "mu": rng.choice(VALUES),
                "form": rng.choice(["dict", "pair"])}
 
 
@@ -299,22 +297,27 @@ def _nontrivial_reduce(case):
 
 @clause("C16.reduced_forms", "C16", gen=_gen_reduce, nontrivial=_nontrivial_reduce)
 def check_reduce(case):
-    """PUBO, PCBO, PUSO and PCSO models of degree 3-4 (PCBO/PCSO optionally with a comparison constraint whose weight
-    is symbolic too): to_qubo(lam), to_quso(lam), to_pubo(deg, lam) and to_puso(deg, lam) for deg in {2, 3} with a
-    sympy Symbol as penalty lam, followed by subs(symbol -> c), equal the reduced form obtained with lam = c
-    (coefficients numerically, same matrix type), c in {0.5, 1, 3}; subs leaves the symbolic reduced form unchanged.
+    """PUBO, PCBO, PUSO and PCSO models M of degree 3-4 (PCBO/PCSO optionally carrying a comparison constraint whose
+    weight is another Symbol mu, the same in both builds): to_qubo(lam), to_quso(lam), to_pubo(deg, lam) and
+    to_puso(deg, lam) for deg in {2, 3} with a sympy Symbol as penalty lam, followed by subs(lam -> c), equal the
+    reduced form of the same M obtained with lam = c (compared numerically after mu is substituted on both sides; same
+    matrix type), c in {0.5, 1, 3}; subs leaves the symbolic reduced form unchanged. (Reducing a model whose *terms*
+    differ, e.g. because a coefficient vanished at c, may legitimately pick other pairs and is not compared.)
     Non-trivial: some term exceeds the target degree."""
+    mu = sym("mu")
+
     def build(w):
         H = cls_of(case["type"])()
         for k, v in case["terms"].items():
             H[k] += v
         for rel, P, wname, log, bounds in case["cons"]:
-            add_constraint(H, rel, P, w[wname], log, bounds)
+            add_constraint(H, rel, P, mu, log, bounds)
         f = getattr(H, case["method"])
         if case["deg"] is None:
             return f(lam=w["lam"])
         return f(deg=case["deg"], lam=w["lam"])
-    return commute(case, build, "%s.%s" % (case["type"], case["method"]))
+    post = (lambda M: M.subs({mu: case["mu"]})) if case["cons"] else None
+    return commute(case, build, "%s.%s" % (case["type"], case["method"]), post)
 
 
 # ---------------------------------------------------------------------------------------------
